@@ -284,7 +284,9 @@ def run_case(scratch: str, case: Dict[str, Any], chooser_factory: Callable[[S.Sc
             # one request-level fault at the boto surface: the nth <op> on a key of class <cls> issued by an actor (by the
             # actor named <actor>, when given) is answered by a transient error
             #   "before"   : BEFORE its effect (the request is not applied),
-            #   "after"    : AFTER its effect (applied, the response is lost), or
+            #   "after"    : AFTER its effect (applied, the response is lost),
+            #   "resent"   : AFTER its effect, and the SDK's automatic re-send of the request is refused by the store (the
+            #                client sees 412 / 409 for a conditional write that WAS applied), or
             #   "inflight" : the client gives up on the request while it is still IN FLIGHT: it reaches the store later, at a
             #                scheduling point of its own (actor "L", operation "Land"), and its precondition is evaluated THEN.
             # The log entry of the storage call is annotated with "s3_fault": <when>.
@@ -328,9 +330,18 @@ def run_case(scratch: str, case: Dict[str, Any], chooser_factory: Callable[[S.Sc
                             sc.log[-1]["s3_fault"] = sf.get("when", "after")
                         return True
                 return False
-            if sf.get("when", "after") == "after":
+            if sf.get("when", "after") in ("after", "resent"):
                 def after_hook(op: str, key: str) -> None:
                     if _sf_fire(op, key):
+                        if sf.get("when") == "resent":
+                            # "resent": the request was APPLIED, its response was lost, and the SDK (botocore's default retry
+                            # policy re-sends a PutObject after a connection error / 5xx) sent it again: the second copy of the
+                            # conditional request is evaluated against the object the first one created and REFUSED -- the
+                            # client sees the store's refusal of a write the store has applied
+                            from botocore.exceptions import ClientError
+                            code = "ConditionalRequestConflict" if store.conflict_code == "409" else "PreconditionFailed"
+                            raise ClientError({"Error": {"Code": code, "Message": "injected: re-sent request refused"},
+                                               "ResponseMetadata": {"HTTPStatusCode": 409 if store.conflict_code == "409" else 412}}, "PutObject")
                         raise _sf_exc()
                 store.after_hook = after_hook
             elif sf.get("when") == "inflight":
@@ -512,7 +523,9 @@ def project(res: CaseResult, nactors: int, cas: bool = False, lease: bool = Fals
     evkind to be wrapped in XE): a pointer write that raised an injected request-level error (log annotation "s3_fault")
     is `XFlipErr <applied>`, the lock release that follows it (commit()'s finally) is `XUnwind`; a request whose client gave
     up while it was in flight stays in flight in the model (its sender's lock release is a lapse of its lease) until the
-    "Land" entry: `XFlipErr <applied>; XUnwind` there.
+    "Land" entry: `XFlipErr <applied>; XUnwind` there.  A pointer write that was applied and whose re-sent copy was refused
+    (log annotation "resent") is `XFlipResent`; the pointer read-back that follows (or, in a source without one, the lock
+    release) is `XReadBack`.
 
     recover=True (conditional-write storage; case["pointer_damage"]: the actors start on an UNUSABLE pointer): the events of
     Model/PtrFallback.v are produced as well (texts starting with "R"; every other text is an evkind to be wrapped in RE).
@@ -538,6 +551,7 @@ def project(res: CaseResult, nactors: int, cas: bool = False, lease: bool = Fals
     tagged: Dict[str, bool] = {}               # recover: actor -> its attempt holds the ETag of the unusable object
     began: Dict[str, bool] = {}                # recover: actor -> its base read found a usable pointer (EBegin already emitted)
     deferred_read: Dict[str, Any] = {}         # recover: actor -> its ETag read, not yet placed (see below)
+    resent: Dict[str, bool] = {}               # faults: actor -> its pointer write was applied and then refused to its face; read-back pending
     if recover:
         events.append((0, "RDamage"))
         bad_id = 0
@@ -578,7 +592,9 @@ def project(res: CaseResult, nactors: int, cas: bool = False, lease: bool = Fals
             except UnicodeDecodeError:
                 name = None
             known = name is not None and name in vids
-            if in_mm_commit and op == "read_file_with_etag" and not validated.get(a):
+            if "MetadataManager._hint_write_landed" in phase:
+                n_known += 1                      # read-back after a refused conditional write: a pure read
+            elif in_mm_commit and op == "read_file_with_etag" and not validated.get(a):
                 # S3StorageBackend.read_file_with_etag retries a missing object (sleeping in between): what it returns was
                 # read at its LAST attempt, i.e. after the Sleep entries that follow in its phase -- the event is placed at
                 # this actor's next log entry that is not such a Sleep
@@ -615,6 +631,15 @@ def project(res: CaseResult, nactors: int, cas: bool = False, lease: bool = Fals
                 began[a] = False
             else:
                 events.append((ai, f"RBegin {vids[base]}"))
+        elif op == "read_file" and pcs == "hint" and "MetadataManager._hint_write_landed" in phase:
+            # the commit point reads the pointer back after the store REFUSED its conditional write (was our write applied
+            # after all?): a pure read for a genuine refusal; for a refused-although-applied write (s3_fault "resent") it is
+            # the XReadBack step of Model/FlipFault.v
+            if faults and resent.get(a):
+                resent[a] = False
+                events.append((ai, "XReadBack"))
+            else:
+                n_known += 1
         elif op in ("read_file", "read_file_with_etag") and pcs == "hint":
             name = result.decode("utf-8").strip() if isinstance(result, (bytes, bytearray)) else None
             if name is None or name not in vids:
@@ -676,6 +701,9 @@ def project(res: CaseResult, nactors: int, cas: bool = False, lease: bool = Fals
             elif flt in ("before", "after"):
                 events.append((ai, "XFlipErr true" if flt == "after" else "XFlipErr false"))
                 erring[a] = True
+            elif flt == "resent":
+                events.append((ai, "XFlipResent"))      # applied; the client was answered with the store's refusal
+                resent[a] = True
             else:
                 ok = result == "ok"
                 events.append((ai, f"{'RFlip' if recover and tagged.get(a) else 'EFlip'} {'true' if ok else 'false'}"))
@@ -683,6 +711,10 @@ def project(res: CaseResult, nactors: int, cas: bool = False, lease: bool = Fals
                     bad_id = None
         elif op == "LockRel":
             _close_validate(events, pending_validate, a, False)
+            if faults and resent.get(a):
+                # the source has no read-back: the refusal of the applied write was taken at face value
+                resent[a] = False
+                events.append((ai, "XReadBack"))
             if erring.get(a):
                 erring[a] = False
                 if holder == a:
